@@ -165,7 +165,7 @@ class DurativeActionToProcesses(engines.engine.Engine, CompilerMixin):
     ) -> ProblemKind:
         new_kind = problem_kind.clone()
         new_kind.unset_time("INTERMEDIATE_CONDITIONS_AND_EFFECTS")
-        if new_kind.has("DURATION_INEQUALITIES"):
+        if new_kind.has_duration_inequalities():
             new_kind.unset_time("DURATION_INEQUALITIES")
             new_kind.set_conditions_kind("DISJUNCTIVE_CONDITIONS")
         new_kind.unset_time("INTERMEDIATE_CONDITIONS_AND_EFFECTS")
@@ -176,6 +176,16 @@ class DurativeActionToProcesses(engines.engine.Engine, CompilerMixin):
         new_kind.set_time("EVENTS")
         new_kind.set_fluents_type("INT_FLUENTS")
         new_kind.set_fluents_type("REAL_FLUENTS")
+        # clocks, counters and the alive / running flags introduced by the compilation
+        new_kind.set_numbers("BOUNDED_TYPES")
+        new_kind.set_conditions_kind("NEGATIVE_CONDITIONS")
+        new_kind.set_conditions_kind("EQUALITIES")
+        new_kind.set_effects_kind("INCREASE_EFFECTS")
+        new_kind.set_effects_kind("DECREASE_EFFECTS")
+        new_kind.set_effects_kind("INCREASE_CONTINUOUS_EFFECTS")
+        new_kind.set_effects_kind("FLUENTS_IN_NUMERIC_ASSIGNMENTS")
+        new_kind.set_problem_type("SIMPLE_NUMERIC_PLANNING")
+        new_kind.set_problem_type("GENERAL_NUMERIC_PLANNING")
         return new_kind
 
     def _compile(
